@@ -424,6 +424,16 @@ impl<S: Read + Write + SetTimeout> Ep<S> {
                 match e["op"].as_str().unwrap_or("") {
                     "ping" => { self.burst += 1; self.c.send(&Frame::ping(*b"c14-hold", false)); }
                     "settings" => self.send_settings(opt_i(&e, "initWin"), opt_i(&e, "maxFrame"), opt_i(&e, "maxStreams"), opt_i(&e, "tbl")),
+                    "rst" => {
+                        // the peer cancels a stream (RST_STREAM) - possibly the one whose frame sozu has half-written
+                        let slot = opt_i(&e, "slot").unwrap_or(1) as usize;
+                        if let Some(&sid) = self.slots.get(slot.max(1) - 1) {
+                            self.log(json!({"ev": "PeerRst", "sid": sid, "code": opt_i(&e, "code").unwrap_or(8)}));
+                            self.burst += 1;
+                            if let Some(s) = self.st.get_mut(&sid) { s.muted = true; s.pst = Half::Done; s.sst = Half::Reset; }
+                            self.c.send(&Frame::rst(sid, opt_i(&e, "code").unwrap_or(8) as u32));
+                        }
+                    }
                     "wu" => {
                         let slot = opt_i(&e, "slot").unwrap_or(0) as usize;
                         let sid = if slot == 0 { Some(0) } else { self.slots.get(slot - 1).copied() };
@@ -1394,6 +1404,18 @@ fn duplex_scenarios(mut id: u64, r: &mut StdRng, nrandom: usize) -> Vec<Value> {
     // ... an illegal WINDOW_UPDATE (increment 0) on the uploading stream: sozu owes RST_STREAM, on a frame boundary
     add_split("fixed:front:duplex-data-rst", false, "h2", 48_000, json!({"ms": 650, "every_ms": 40, "data": 3_000, "max": 24_000,
         "events": [{"at_ms": 420, "op": "wu", "slot": 2, "n": 0, "stop_data": true}]}), 0, &mut v);
+    // open finding reset-drops-frame-tail (deviation ResetDropsFrameTail): the peer cancels (RST_STREAM) the stream whose
+    // DATA frame sozu has half-written and opens another stream: the rest of the frame never goes out, the next
+    // HEADERS frame lands inside it and the framing of the connection is lost
+    {
+        id += 1;
+        let ops = json!([{"op": "settings", "initWin": 1 << 30, "maxFrame": 16_384, "maxStreams": 100}, {"op": "wu", "slot": 0, "n": 1 << 30}, {"op": "sync"},
+            {"op": "open", "down": 6_000_000, "up": 0}, {"op": "await", "bytes": 100_000},
+            {"op": "hold", "ms": 500, "rcvbuf": 131_072, "events": [{"at_ms": 300, "op": "rst", "slot": 1}]},
+            {"op": "open", "down": 50_000, "up": 0}, {"op": "finish", "mode": "eager"}]);
+        v.push(json!({"id": id, "kind": "front", "front": "h2", "listener": "tls", "label": "fixed:front:cancel-half-written-frame", "streams": [],
+                      "peer": {"ops": ops, "pad": 0, "rcvbuf": 131_072, "up_chunk": 16_384}, "driver": {"up_chunk": 16_384}, "deadline_ms": 60_000}));
+    }
     // frames of an upload split inside the next frame header (any TCP segment boundary can fall there)
     for (label, kind, k) in [("fixed:front:split-header-upload", "front", 4i64), ("fixed:back:split-header-response", "back", 5)] {
         id += 1;
